@@ -4,6 +4,8 @@ import (
 	"sync"
 
 	srt "github.com/datarhei/gosrt"
+
+	"github.com/bluenviron/mediamtx/internal/logger"
 )
 
 type listener struct {
@@ -25,9 +27,25 @@ func (l *listener) run() {
 	l.parent.acceptError(err)
 }
 
+// the SRT library parses handshake packets inside Accept2() and can panic
+// when they are malformed. Since handshake packets can be sent by anyone,
+// a panic must not bring down the entire server.
+func (l *listener) accept() (req srt.ConnRequest, recovered any, err error) {
+	defer func() {
+		recovered = recover()
+	}()
+
+	req, err = l.ln.Accept2()
+	return req, nil, err
+}
+
 func (l *listener) runInner() error {
 	for {
-		req, err := l.ln.Accept2()
+		req, recovered, err := l.accept()
+		if recovered != nil {
+			l.parent.Log(logger.Warn, "invalid handshake packet: %v", recovered)
+			continue
+		}
 		if err != nil {
 			return err
 		}
